@@ -22,6 +22,7 @@ def parseEv (s : String) : Option Ev :=
 def check (target : String) (h : Array Ev) (w : List Nat) : Bool :=
   match target with
   | "kms" => validate kmsSpec h w
+  | "kms2" => validate kmsSpec h w
   | "session" => validate sessionSpec h w
   | "pickup" => validate pickupSpec h w
   | "wsave" => validate walletSpec h w
